@@ -70,6 +70,26 @@ def main():
 
     B = Tensor.from_dok({(0, 1): 1.0, (1, 0): 2.0, (2, 2): 3.0}, dimensions=(3, 3), format="ds")
     C = Tensor.from_dok({(0, 1): 4.0, (1, 1): 0.5, (2, 0): -1.0}, dimensions=(3, 3), format="ss")
+    D = Tensor.from_dok({(0, 0): 2.0, (1, 2): 1.0}, dimensions=(3, 3), format="ss")  # disjoint from C
+    V = Tensor.from_dok({(1,): 2.0}, dimensions=(3,), format="s")
+    Z = Tensor.from_dok({}, dimensions=(3, 3), format="ss")
+    # every eval op picks one variant: non-empty and EMPTY results, several output formats and orders
+    SPARSE = [("a(i,j) = b(i,j) + c(i,j)", "ss", {"b": B, "c": C}), ("a(i,j) = c(i,j) * d(i,j)", "ss", {"c": C, "d": D}),
+              ("a(i,j) = b(i,j) + c(i,j)", "ds", {"b": B, "c": C}), ("a(i,j) = c(i,j) * d(i,j)", "sd", {"c": C, "d": D}),
+              ("a(i) = c(i,j) * v(j)", "s", {"c": C, "v": V}), ("a(i,j) = z(i,j)", "ds", {"z": Z}), ("a(i,j) = z(i,j) * c(i,j)", "ss", {"z": Z, "c": C}),
+              ("a(i,j,k) = c(i,j) * v(k)", "sss", {"c": C, "v": V}), ("a(i,j) = c(i,j) - c(i,j)", "ss", {"c": C})]
+    DENSE = [("a(i,j) = b(i,j) + c(i,j)", "dd", {"b": B, "c": C}), ("a(i) = b(i,j) * v(j)", "d", {"b": B, "v": V}), ("a(i,j) = z(i,j)", "dd", {"z": Z})]
+    SCALAR = [("a() = b(i,j) * c(i,j)", "", {"b": B, "c": C}), ("a() = c(i,j) * d(i,j)", "", {"c": C, "d": D}), ("a() = v(i)", "", {"v": V})]
+    usable = {}
+    for group_name, group in (("eval_sparse", SPARSE), ("eval_dense", DENSE), ("eval_scalar", SCALAR)):
+        ok = []
+        for asg, fmt, kw in group:
+            try:
+                ev(asg, fmt, **kw)
+                ok.append((asg, fmt, kw))
+            except Exception:  # noqa: BLE001 - a refused variant is simply not used
+                pass
+        usable[group_name] = ok
 
     def pointers(t):
         """addresses of every kernel-allocatable array of the struct behind Tensor t"""
@@ -120,10 +140,9 @@ def main():
             rec = {"op": op}
             if op in ("eval_sparse", "eval_dense", "eval_scalar"):
                 n = fresh_name()
-                if op == "eval_scalar":
-                    t = ev("a() = b(i,j) * c(i,j)", "", b=B, c=C)
-                else:
-                    t = ev("a(i,j) = b(i,j) + c(i,j)", "ss" if op == "eval_sparse" else "dd", b=B, c=C)
+                asg, fmt, kw = rng.choice(usable[op])
+                rec["variant"] = [asg, fmt]
+                t = ev(asg, fmt, **kw)
                 next_tid[0] += 1
                 tid = next_tid[0]
                 rec.update({"new_tid": tid, "pointers": pointers(t), "name": n})
@@ -165,10 +184,8 @@ def main():
                     src = names[m][2]
                     n = fresh_name()
                     fmt = src.format.deparse()
-                    if src.order == 0:
-                        t = ev("r() = t()", "", t=src)
-                    else:
-                        t = ev("r(i,j) = t(i,j)", fmt, t=src)
+                    idx = ",".join("ijkl"[: src.order])
+                    t = ev(f"r({idx}) = t({idx})", fmt, t=src)
                     next_tid[0] += 1
                     tid = next_tid[0]
                     rec.update({"new_tid": tid, "pointers": pointers(t), "name": n, "source": m, "input_tid": names[m][1]})
